@@ -322,6 +322,74 @@ def isHolder (s : Sys) (key id : Bytes) : Bool :=
   | some d => s.now ≤ d
   | none => false
 
+/-! ## cmd/syncer.go `clusterTicker`: what the instance does with the answers -/
+
+/-- scripted answers of the election: `ok | notLeader | err` for Renew,
+    `leader | follower | err` for Campaign -/
+inductive TRes where
+  | ok | notLeader | err | leader | follower
+  deriving DecidableEq, Repr
+
+structure TOut where
+  calls : List Nat                     -- instants (ms since start) of the election calls
+  closed : Option (Nat × ErrClass)     -- when and how the ticker closed the syncer's wait
+  deriving DecidableEq, Repr
+
+def renewErr : TRes → ErrClass
+  | .ok => .ok
+  | .leader => .ok
+  | .notLeader => .notLeader
+  | .follower => .notLeader
+  | .err => .other
+
+/-- role = leader: every `R` ms `util.Retry(clusterRenew, 2)`; if both attempts
+    fail the wait is closed with that error (joined with ErrBreak) and no
+    further call is made. Answers beyond the script are `ok`. -/
+def tickerLeader (R : Nat) : Nat → Nat → List TRes → List Nat → TOut
+  | _, 0, _, calls => { calls := calls.reverse, closed := none }
+  | i, n + 1, script, calls =>
+    let t := i * R
+    let a1 := script.headD .ok
+    if renewErr a1 = .ok then tickerLeader R (i + 1) n script.tail (t :: calls)
+    else
+      let a2 := script.tail.headD .ok
+      if renewErr a2 = .ok then tickerLeader R (i + 1) n script.tail.tail (t :: t :: calls)
+      else { calls := (t :: t :: calls).reverse, closed := some (t, renewErr a2) }
+
+/-- role = follower: every `R` ms one campaign; an error closes the wait with
+    it, "leader" closes it with nil (the loop restarts as leader). Answers
+    beyond the script are `follower`. -/
+def tickerFollower (R : Nat) : Nat → Nat → List TRes → List Nat → TOut
+  | _, 0, _, calls => { calls := calls.reverse, closed := none }
+  | i, n + 1, script, calls =>
+    let t := i * R
+    match script.headD .follower with
+    | .err => { calls := (t :: calls).reverse, closed := some (t, .other) }
+    | .leader => { calls := (t :: calls).reverse, closed := some (t, .ok) }
+    | .ok => { calls := (t :: calls).reverse, closed := some (t, .ok) }
+    | _ => tickerFollower R (i + 1) n script.tail (t :: calls)
+
+/-- `n` ticks of `clusterTicker` -/
+def tickerRun (leader : Bool) (R n : Nat) (script : List TRes) : TOut :=
+  if leader then tickerLeader R 1 n script [] else tickerFollower R 1 n script []
+
+/-! ## election identity: config `ServerConfig.fix` + cluster-mode check,
+     cmd/syncer.go `NewElection(ctx, key, Server.ListenPeer)` -/
+
+/-- "127.0.0.1:18001" -/
+def defaultListen : Bytes := [49,50,55,46,48,46,48,46,49,58,49,56,48,48,49]
+
+def peerAddr (listen peer : Bytes) : Bytes :=
+  if peer = [] then (if listen = [] then defaultListen else listen) else peer
+
+/-- the id an instance contends under, `none` = configuration refused.
+    `unspec` = the host part of the resulting peer address is empty or the
+    unspecified address (computed by Go's net package). -/
+def electionId (cluster : Bool) (listen peer : Bytes) (unspec : Bool) : Option Bytes :=
+  if cluster && (listen = [] && peer = []) then none
+  else if cluster && unspec then none
+  else some (peerAddr listen peer)
+
 /-! ## config/config.go `(*ClusterConfig).fix` (durations in nanoseconds) -/
 
 structure Cfg where
